@@ -572,6 +572,9 @@ impl Prop for C17 {
             GenSpec::enumerated("embedded-4", 4096),
             GenSpec::random("embedded-dag", tier.pick(1_500, 100_000)),
             GenSpec::random("embedded-lock-state", tier.pick(150, 3000)),
+            // gridded libraries of 70 000 to 130 000 cells: whatever an orderer keeps per cell in a narrower key (16-bit positions, 32-bit
+            // fingerprints of addresses) starts to collide at this size
+            GenSpec::random("huge-library", tier.pick(4, 40)),
             GenSpec::random("embedded-cyclic-raw-deporder", tier.pick(24, 300)).isolated(),
             GenSpec::random("embedded-cyclic-raw-to_proto", tier.pick(24, 300)).isolated(),
             GenSpec::random("embedded-cyclic-gds", tier.pick(24, 300)).isolated(),
@@ -708,6 +711,62 @@ impl Prop for C17 {
                     self.embedded_tetris_raw(cx, &g, &listing, "embedded");
                 }
                 cx.sample(|| json!({"nodes": n, "edges": g.iter().map(|d| d.len()).sum::<usize>(), "listing_head": listing.iter().take(8).collect::<Vec<_>>()}));
+            }
+            "huge-library" => {
+                use layout21tetris as tet;
+                let n = 70_000 + cx.rng.usize(60_000);
+                // a random DAG (edges from higher to lower rank), built directly: 1-3 dependencies per cell
+                let mut g: Graph = vec![Vec::new(); n];
+                for i in 1..n {
+                    for _ in 0..1 + cx.rng.usize(3) {
+                        let j = cx.rng.usize(i);
+                        if !g[i].contains(&j) {
+                            g[i].push(j);
+                        }
+                    }
+                }
+                // listing: users first (descending index), so that the order has to be repaired everywhere; or (every other case) already in
+                // dependency order except for ONE leaf that is stored tens of thousands of positions behind its only user
+                let listing: Vec<usize> = if cx.n % 2 == 0 {
+                    (0..n).rev().collect()
+                } else {
+                    let mut l: Vec<usize> = (0..n).collect();
+                    let user = 1000 + cx.rng.usize(20_000);
+                    g.push(Vec::new()); // the displaced leaf: node n
+                    g[user].push(n);
+                    let at = 65_536 + cx.rng.usize(user.min(n - 65_536));
+                    l.insert(at.min(l.len()), n);
+                    l
+                };
+                let n = g.len();
+                cx.nontrivial(crate::rt::prng::strhash(&format!("{}{:?}", n, &g[n - 50..])));
+                cx.count(if cx.n % 2 == 0 { "huge_libraries_users_first" } else { "huge_libraries_presorted_but_one" });
+                cx.eval();
+                let lib = tetris_lib(&g, &listing);
+                match guard(|| lib.dep_order()) {
+                    Err(c) => cx.violation(&format!("huge-library|tetris-dep_order|panic|{}", c.norm_msg()), json!({"cells": n, "panic": c.msg})),
+                    Ok(cells) => {
+                        let seq: Vec<usize> = cells.iter().map(|c| idx_of(&c.read().unwrap().name)).collect();
+                        match judge(&g, &listing, Some(&seq)) {
+                            Err(w) => cx.violation(&format!("huge-library|tetris-dep_order|{}", w), json!({"cells": n, "result_len": seq.len()})),
+                            Ok(()) => cx.count("huge_tetris_dep_orders_valid"),
+                        }
+                    }
+                }
+                cx.eval();
+                let lib = tetris_lib(&g, &listing);
+                match guard(|| tet::conv::proto::ProtoExporter::export(&lib)) {
+                    Err(c) => cx.violation(&format!("huge-library|tetris-proto-export|panic|{}", c.norm_msg()), json!({"cells": n, "panic": c.msg})),
+                    Ok(Err(e)) => cx.violation("huge-library|tetris-proto-export|acyclic-graph-rejected", json!({"cells": n, "error": format!("{:?}", e).chars().take(200).collect::<String>()})),
+                    Ok(Ok(p)) => {
+                        let seq: Vec<usize> = p.cells.iter().map(|c| idx_of(&c.name)).collect();
+                        match judge(&g, &listing, Some(&seq)) {
+                            Err(w) => cx.violation(&format!("huge-library|tetris-proto-export|{}", w), json!({"cells": n, "result_len": seq.len()})),
+                            Ok(()) => cx.count("huge_tetris_proto_cell_orders_valid"),
+                        }
+                    }
+                }
+                cx.sample(|| json!({"cells": n, "edges": g.iter().map(|d| d.len()).sum::<usize>()}));
             }
             "embedded-lock-state" => {
                 // the state of the cells' locks at the moment of the call: a cell that another thread is editing (its write guard is held while
